@@ -1,26 +1,17 @@
 package main
 
 import (
+	"crypto/sha256"
 	"fmt"
 	"go/types"
 	"reflect"
+	"sort"
 	"strings"
 
 	"golang.org/x/tools/go/ssa"
 )
 
 const protoPkg = "protobom.protobom."
-
-var absType types.Type = types.NewNamed(types.NewTypeName(0, nil, "abstractProto", nil), types.NewStruct(nil, nil), nil)
-
-type absInvoker interface {
-	invoke(ex *Exec, method string, args []Value, site string) Value
-}
-
-type absCall struct {
-	recv   absInvoker
-	method string
-}
 
 type protoMsg struct {
 	ptr   Ptr
@@ -133,7 +124,9 @@ func (pm *protoMap) invoke(ex *Exec, method string, args []Value, site string) V
 	return nil
 }
 
-func protoValString(pv *protoVal) Value {
+func protoValString(ex *Exec, pv *protoVal) Value {
+	// enum-typed values print their name (protoreflect.Value.String of an EnumNumber prints the number;
+	// flatString only calls String() on scalar fields, where the Go value of an enum field is its number)
 	switch x := pv.v.(type) {
 	case string:
 		return x
@@ -154,13 +147,173 @@ func protoValString(pv *protoVal) Value {
 	panic(pathAbort{fmt.Sprintf("unsupported: protoreflect.Value.String of %T", pv.v)})
 }
 
+// BytesView is []byte(s) of a symbolic string, kept as the same term.
+type BytesView struct{ t *Term }
+
+// DigestVal is sha256.Sum256 of a string term: the uninterpreted, injective function H.
+type DigestVal struct{ arg *Term }
+
+func (ex *Exec) digestTerm(d DigestVal) *Term {
+	if ex.concreteMode() && d.arg.Op == "cs" {
+		return mkStr(fmt.Sprintf("%x", sha256.Sum256([]byte(d.arg.S))))
+	}
+	h := mkUF("H", SStr, d.arg)
+	for _, prev := range ex.happs {
+		if prev == h {
+			return h
+		}
+	}
+	for _, prev := range ex.happs {
+		// injectivity instance (SHA-256 collision freedom is assumed)
+		ex.assume(mkImplies(mkEq(h, prev), mkEq(d.arg, prev.Args[0])))
+	}
+	ex.happs = append(ex.happs, h)
+	return h
+}
+
+func (ex *Exec) enumString(enum string, v Value) Value {
+	tab := ex.sh.enumTab[enum]
+	switch x := v.(type) {
+	case int64:
+		if s, ok := tab[x]; ok {
+			return s
+		}
+		return fmt.Sprint(x)
+	case *Term:
+		// ite chain over the name table, decimal otherwise
+		var keys []int64
+		for k := range tab {
+			keys = append(keys, k)
+		}
+		sort.Slice(keys, func(i, j int) bool { return keys[i] < keys[j] })
+		res := mkFromInt(x)
+		for i := len(keys) - 1; i >= 0; i-- {
+			res = mkIte(mkEq(x, mkInt(keys[i])), mkStr(tab[keys[i]]), res)
+		}
+		return lower(res)
+	}
+	panic(pathAbort{fmt.Sprintf("unsupported: enum String of %T", v)})
+}
+
+// fmtArg renders one operand of a Sprintf-style verb as a string term.
+func (ex *Exec) fmtArg(verb byte, a Value, site string) *Term {
+	if ia, ok := a.(Iface); ok {
+		if ia.T == nil {
+			return mkStr("<nil>")
+		}
+		// enum types print through their String method for %s / %v
+		if n, ok := ia.T.(*types.Named); ok && (verb == 's' || verb == 'v') {
+			if _, isEnum := ex.sh.enumTab[n.Obj().Name()]; isEnum && n.Obj().Pkg() != nil && strings.HasSuffix(n.Obj().Pkg().Path(), "pkg/sbom") {
+				return strTerm(ex.enumString(n.Obj().Name(), ia.V))
+			}
+		}
+		if e, ok := ia.V.(*errAbs); ok {
+			if e.msg == nil {
+				return mkStr("error")
+			}
+			if _, isS := e.msg.(string); isS {
+				return mkStr("error")
+			}
+			return mkStr("error")
+		}
+		a = ia.V
+	}
+	switch x := a.(type) {
+	case string:
+		if verb == 'q' {
+			return mkStr(fmt.Sprintf("%q", x))
+		}
+		return mkStr(x)
+	case int64:
+		if verb == 'x' {
+			return mkStr(fmt.Sprintf("%x", x))
+		}
+		return mkStr(fmt.Sprint(x))
+	case bool:
+		return mkStr(fmt.Sprint(x))
+	case float64:
+		return mkStr(fmt.Sprint(x))
+	case DigestVal:
+		return ex.digestTerm(x)
+	case *Term:
+		switch x.Sort {
+		case SStr:
+			if verb == 'q' {
+				return mkConcat(mkStr("\""), x, mkStr("\""))
+			}
+			return x
+		case SInt:
+			return mkFromInt(x)
+		case SBool:
+			return mkIte(x, mkStr("true"), mkStr("false"))
+		}
+	case *protoFD:
+		return mkStr(x.full)
+	case Ptr:
+		if x.IsNil() {
+			return mkStr("<nil>")
+		}
+		return mkStr("0xptr")
+	}
+	panic(pathAbort{fmt.Sprintf("unsupported: Sprintf arg %T (verb %c) at %s", a, verb, site)})
+}
+
+func (ex *Exec) sprintf(format string, va []Value, site string) Value {
+	var parts []*Term
+	ai := 0
+	for i := 0; i < len(format); i++ {
+		c := format[i]
+		if c != '%' {
+			parts = append(parts, mkStr(string(c)))
+			continue
+		}
+		i++
+		// flags / width are only supported on concrete integers
+		spec := "%"
+		for i < len(format) && strings.IndexByte("0123456789+-# .", format[i]) >= 0 {
+			spec += string(format[i])
+			i++
+		}
+		if i >= len(format) {
+			break
+		}
+		verb := format[i]
+		if verb == '%' {
+			parts = append(parts, mkStr("%"))
+			continue
+		}
+		if ai >= len(va) {
+			parts = append(parts, mkStr("%!"+string(verb)+"(MISSING)"))
+			continue
+		}
+		a := va[ai]
+		ai++
+		if spec != "%" {
+			if ia, ok := a.(Iface); ok {
+				if n, ok := ia.V.(int64); ok {
+					parts = append(parts, mkStr(fmt.Sprintf(spec+string(verb), n)))
+					continue
+				}
+			}
+			panic(pathAbort{"unsupported: Sprintf flags " + spec + string(verb)})
+		}
+		switch verb {
+		case 's', 'v', 'd', 'q', 'x', 't':
+			parts = append(parts, ex.fmtArg(verb, a, site))
+		default:
+			panic(pathAbort{"unsupported: Sprintf verb " + string(verb)})
+		}
+	}
+	return lower(mkConcat(parts...))
+}
+
 func init() {
 	pr := "(google.golang.org/protobuf/reflect/protoreflect."
 	intrinsics[pr+"Value).String"] = func(ex *Exec, fn *ssa.Function, args []Value, site string) Value {
-		return protoValString(args[0].(*protoVal))
+		return protoValString(ex, args[0].(*protoVal))
 	}
 	intrinsics[pr+"MapKey).String"] = func(ex *Exec, fn *ssa.Function, args []Value, site string) Value {
-		return protoValString(args[0].(*protoVal))
+		return protoValString(ex, args[0].(*protoVal))
 	}
 	intrinsics[pr+"Value).List"] = func(ex *Exec, fn *ssa.Function, args []Value, site string) Value {
 		pv := args[0].(*protoVal)
@@ -172,61 +325,30 @@ func init() {
 		return Iface{T: absType, V: &protoMap{m: pv.v.(*Map), kt: mt.Key(), vt: mt.Elem()}}
 	}
 	intrinsics["fmt.Sprintf"] = func(ex *Exec, fn *ssa.Function, args []Value, site string) Value {
-		format := args[0].(string)
-		va := args[1].(Slice)
+		format, ok := args[0].(string)
+		if !ok {
+			panic(pathAbort{"unsupported: symbolic Sprintf format"})
+		}
+		return ex.sprintf(format, sliceVals(args[1]), site)
+	}
+	intrinsics["fmt.Sprint"] = func(ex *Exec, fn *ssa.Function, args []Value, site string) Value {
 		var parts []*Term
-		ai := 0
-		for i := 0; i < len(format); i++ {
-			c := format[i]
-			if c != '%' {
-				parts = append(parts, mkStr(string(c)))
-				continue
-			}
-			i++
-			verb := format[i]
-			if verb == '%' {
-				parts = append(parts, mkStr("%"))
-				continue
-			}
-			if ai >= va.Len {
-				panic(pathAbort{"unsupported: Sprintf missing arg"})
-			}
-			a := va.Arr[va.Off+ai].(Iface)
-			ai++
-			switch verb {
-			case 's', 'v', 'd':
-				switch x := a.V.(type) {
-				case string:
-					parts = append(parts, mkStr(x))
-				case int64:
-					parts = append(parts, mkStr(fmt.Sprint(x)))
-				case bool:
-					parts = append(parts, mkStr(fmt.Sprint(x)))
-				case *Term:
-					switch x.Sort {
-					case SStr:
-						parts = append(parts, x)
-					case SInt:
-						parts = append(parts, mkFromInt(x))
-					case SBool:
-						parts = append(parts, mkIte(x, mkStr("true"), mkStr("false")))
-					}
-				default:
-					panic(pathAbort{fmt.Sprintf("unsupported: Sprintf arg %T", a.V)})
-				}
-			default:
-				panic(pathAbort{"unsupported: Sprintf verb " + string(verb)})
-			}
+		for _, a := range sliceVals(args[0]) {
+			parts = append(parts, ex.fmtArg('v', a, site))
 		}
 		return lower(mkConcat(parts...))
 	}
-	intrinsics["sort.Ints"] = func(ex *Exec, fn *ssa.Function, args []Value, site string) Value {
-		s := args[0].(Slice)
-		for i := 1; i < s.Len; i++ {
-			for j := i; j > 0 && s.Arr[s.Off+j].(int64) < s.Arr[s.Off+j-1].(int64); j-- {
-				s.Arr[s.Off+j], s.Arr[s.Off+j-1] = s.Arr[s.Off+j-1], s.Arr[s.Off+j]
+	intrinsics["crypto/sha256.Sum256"] = func(ex *Exec, fn *ssa.Function, args []Value, site string) Value {
+		switch x := args[0].(type) {
+		case BytesView:
+			return DigestVal{arg: x.t}
+		case Slice:
+			b := make([]byte, x.Len)
+			for i := range b {
+				b[i] = byte(x.Arr[x.Off+i].(int64))
 			}
+			return DigestVal{arg: mkStr(string(b))}
 		}
-		return nil
+		panic(pathAbort{"unsupported: sha256 operand"})
 	}
 }
